@@ -287,6 +287,13 @@ func randLogDomain(rng *rand.Rand) (float64, float64) {
 	case 1:
 		b = a * (1 + rng.Float64()*3)
 	}
+	if rng.Intn(10) == 0 { // very wide: hundreds of decades (high tick levels)
+		a = math.Pow(10, -rng.Float64()*150)
+		b = math.Pow(10, rng.Float64()*150)
+		if rng.Intn(2) == 0 {
+			a, b = math.Pow(10, float64(-rng.Intn(120))), math.Pow(10, float64(rng.Intn(120)))
+		}
+	}
 	if rng.Intn(2) == 0 {
 		a, b = -a, -b
 	}
